@@ -188,4 +188,11 @@ var props = map[string]*propCfg{
 			mc("nested", "MC_C08", "C11_C08.cfg", 10*time.Minute),
 		},
 	},
+	"C12": {
+		ID: "C12", Level: "model_checking", Exhaustive: true,
+		Rule:        "TLC enumerates the matrix of 27 expression forms (column, nested path, missing key, number / string / boolean / NULL literals, + / % ~ -, CASE with and without ELSE, CONCAT, ARRAY, IF, FIRST, TO_UPPER, UNWIND, object and array columns, select-list subquery plain and aggregate, ASYNC and SCOPED calls, nested calls) x 8-11 clause positions (select item, next to *, WHERE operand, CASE arm, function argument, IF argument, HAVING, DISTINCT, ORDER BY key, comparison operand, IN list) plus 11 statement-level forms (GROUP BY aggregates, group star, whole-table aggregates, CTE, derived table, UNION, EXISTS, IN subquery, ORDER BY + LIMIT/OFFSET, SPIN / SPINASYNC, several ASYNC items) x tables of 1..MaxRows rows, and checks that the specification's results are plain values and a function of (query, document). Each case is executed: reflection walk of the real result (only maps, slices, strings, booleans, nil, Go numbers that are finite; no pointer, func, named engine type, cycle, \"<-\" key), encoding/json round trip, and two repetitions on equal inputs (equal sequence; equal multiset when ORDER BY leaves ties or a join is involved). Non-trivial: a non-empty successful result; distinct = distinct (document, query).",
+		Assumptions: baseAssumptions,
+		Quick:       []legCfg{mc("matrix", "MC_C12", "C12_quick.cfg", 10*time.Minute)},
+		Thorough:    []legCfg{mc("matrix", "MC_C12", "C12_thorough.cfg", 30*time.Minute), mc("compose", "MC_C07", "C11_C07.cfg", 10*time.Minute), mc("group", "MC_C03", "C11_C03.cfg", 10*time.Minute)},
+	},
 }
